@@ -482,6 +482,32 @@ def _is_pop0(t, var=None):
             and (var is None or t[1][1] == var))
 
 
+def _is_pop_last_of_reversed(du, T, cfg, t):
+    """<var>.pop() / .pop(-1) on a local list that was reversed in place
+    exactly once, outside every loop that contains nothing else of it: the
+    elements come out front to back, like pop(0) on the list as built."""
+    if not (t[0] == "mcall" and t[2] == "pop" and not t[4]
+            and t[3] in ((), (("const", -1),)) and t[1][0] == "var"):
+        return False
+    revs = [d for d in du.defs if d.name == t[1][1] and d.kind == "mut"
+            and d.node is not None
+            and T.of_def(d)[0] == "mut" and T.of_def(d)[2] == "reverse"]
+    others = [d for d in du.defs if d.name == t[1][1] and d.kind == "mut"
+              and d.node is not None and T.of_def(d)[0] == "mut"
+              and T.of_def(d)[2] not in ("reverse", "pop")]
+    if len(revs) != 1 or others:
+        return False
+    pops = [d for d in du.defs if d.name == t[1][1] and d.kind == "mut"
+            and d.node is not None and T.of_def(d)[0] == "mut"
+            and T.of_def(d)[2] == "pop"]
+    # the reversal is not repeated with the pops: it is outside their loop
+    for pd_ in pops:
+        lp = cfg.enclosing(pd_.node, (ast.For, ast.While))
+        if lp is not None and inside(revs[0].node, lp):
+            return False
+    return True
+
+
 def _plain_comp(t):
     """(element term, iterable term) of a one-generator comprehension
     without conditions, else None"""
@@ -526,9 +552,25 @@ def _predict(ctx, f):
     # "the same position": enumerate, zip, range(len(..)) with subscripts)
     a_fold, a_ps, a_model = (align_positions(t_fold), align_positions(t_ps),
                              align_positions(t_model))
+    def pos_expr(t):
+        if t == POS or t[0] == "const":
+            return True
+        if t[0] == "bin":
+            return pos_expr(t[2]) and pos_expr(t[3])
+        if t[0] == "un":
+            return pos_expr(t[2])
+        return False
+    gen = cfg.enclosing(task[0], (ast.GeneratorExp, ast.ListComp))
+    if not (pos_expr(a_fold) and a_ps[0] == "sub" and pos_expr(a_ps[2])
+            and a_model[0] == "sub" and pos_expr(a_model[2])
+            and gen is not None):
+        raise AnalysisError(
+            f"{f.qual}: how a prediction task is paired with its fold, "
+            f"model and slice is written in a form the rule does not read "
+            f"(fold={show(t_fold, 50)}, model={show(t_model, 50)}, psms="
+            f"{show(t_ps, 50)}); rule C02b needs re-reading")
     ok_t = (a_fold == POS and a_ps[0] == "sub" and a_ps[2] == POS
             and a_model == ("sub", ("param", p_models), POS))
-    gen = cfg.enclosing(task[0], (ast.GeneratorExp, ast.ListComp))
     ok_t = ok_t and gen is not None and len(gen.generators) == 1 and \
         not gen.generators[0].ifs
     D = a_ps[1] if ok_t else None
@@ -536,6 +578,12 @@ def _predict(ctx, f):
     #      for i in range(n)]   (one or two comprehensions, fused here)
     dc = _plain_comp(fuse_comps(D)) if D else None
     if D is not None and dc is None and fuse_comps(D)[0] != "comp":
+        raise AnalysisError(
+            f"{f.qual}: the per-chunk list of fold slices is built in a "
+            f"form the rule does not read ({show(D, 100)}); rule C02b "
+            "needs re-reading")
+    if D is not None and dc is not None and not (
+            dc[0][0] == "call" and dc[0][1] == "mokapot.brew._create_psms"):
         raise AnalysisError(
             f"{f.qual}: the per-chunk list of fold slices is built in a "
             f"form the rule does not read ({show(D, 100)}); rule C02b "
@@ -558,11 +606,24 @@ def _predict(ctx, f):
             chunk_t = ga.get(giv.params[0])
             orig_t = ga.get(giv.params[3])
             rng = L
+            while rng[0] == "call" and rng[1] in (
+                    "builtins.list", "builtins.tuple") and \
+                    len(rng[2]) == 1 and not rng[3]:
+                rng = rng[2][0]
+            if not (rng[0] == "call" and rng[1] == "builtins.range"):
+                raise AnalysisError(
+                    f"{f.qual}: the fold numbers the slices are cut for "
+                    f"({show(L, 80)}) are not a range the rule can read; "
+                    "rule C02b needs re-reading")
+            L_as_written = L
+            L = rng
             if rng[0] == "call" and rng[1] == "builtins.range" and \
                     len(rng[2]) == 1:
                 n_t = rng[2][0]
                 ok_s = (ga.get(giv.params[1]) == ("const", "fold")
-                        and ga.get(giv.params[2]) == elem_of(rng)
+                        and ga.get(giv.params[2]) in (
+                            elem_of(rng), elem_of(L_as_written),
+                            ("elem", L_as_written))
                         and n_t == ("call", "builtins.len",
                                     (("param", p_models),), ()))
     ctx.check(ok_t and ok_list, "C02b-model-i-scores-slot-i", f,
@@ -575,13 +636,20 @@ def _predict(ctx, f):
               "fold label is i, for i in range(number of models)",
               f"slices are {show(L, 160) if L else '?'}", node=task[0])
     # ---- fold label column = next chunk of the model-index vector
+    if ok_t and not (chunk_t is not None and chunk_t[0] == "store"
+                     and chunk_t[2] == ("const", "fold")):
+        raise AnalysisError(
+            f"{f.qual}: how a chunk gets its 'fold' column is written in a "
+            f"form the rule does not read "
+            f"({show(chunk_t, 100) if chunk_t else 'chunk not found'}); "
+            "rule C02b needs re-reading")
     ok_f = False
     why = f"chunk frame is {show(chunk_t, 160) if chunk_t else '?'}"
     if chunk_t and chunk_t[0] == "store" and chunk_t[2] == ("const", "fold"):
         base, val = chunk_t[1], chunk_t[3]
         rd = base[1] if base[0] == "elem" else None
-        if rd and rd[0] == "mcall" and rd[2] == "read_data" and \
-                _is_pop0(val):
+        if rd and rd[0] == "mcall" and rd[2] == "read_data" and (
+                _is_pop0(val) or _is_pop_last_of_reversed(du, T, cfg, val)):
             vt = _var_inits(du, T, val[1])
             cc = [x for x in vt if x[0] == "call"
                   and x[1] == "mokapot.utils.create_chunks"]
@@ -613,7 +681,8 @@ def _predict(ctx, f):
     p_df, p_col, p_val, p_orig = giv.params
     want_mask = ("cmp", "==", ("sub", ("param", p_df), ("param", p_col)),
                  ("param", p_val))
-    ok_g = any(x[0] == "sub" and x[1] == ("param", p_df) and x[2] == want_mask
+    DF_ROWS = (("param", p_df), ("attr", ("param", p_df), "loc"))
+    ok_g = any(x[0] == "sub" and x[1] in DF_ROWS and x[2] == want_mask
                for x in walk_term(rt))
     from ..events import container_events, root_name as _root
     gev = [e for e in container_events(giv.node, gT, CFG(giv.node))
@@ -633,7 +702,7 @@ def _predict(ctx, f):
             return False
         return ok_slot and val is not None and any(
             x[0] == "attr" and x[2] == "index" and any(
-                y[0] == "sub" and y[1] == ("param", p_df)
+                y[0] == "sub" and y[1] in DF_ROWS
                 and y[2] == want_mask for y in walk_term(x[1]))
             for x in walk_term(val))
     ok_g = ok_g and len(gev) == 1 and _records_index(gev[0])
@@ -669,6 +738,20 @@ def _predict(ctx, f):
     # ---- d: fold-major concatenation, un-permuted by argsort of the
     # fold-major original row numbers
     ys = [n for n in ast.walk(f.node) if isinstance(n, ast.Yield)]
+    if not ys:
+        # the same function written to return the list of per-collection
+        # results: the value appended to the returned list, once per round
+        # of the collection loop, stands for the yielded value
+        rets_ = [t for _r, t in T.returns()]
+        if len(rets_) == 1 and rets_[0][0] == "var":
+            apps_ = [e for e in container_events(f.node, T, cfg)
+                     if e.kind == "append" and len(e.args) == 1
+                     and root_name(e.recv) == rets_[0][1]
+                     and cfg.enclosing(e.node, (ast.For, ast.While))
+                     is not None]
+            if len(apps_) == 1:
+                apps_[0].node.value = apps_[0].node.args[0]
+                ys = [apps_[0].node]
     ctx.require(len(ys) == 1, f"{f.qual}: yield not found")
     yt = T.of(ys[0].value)
     ok_y = False
@@ -719,11 +802,17 @@ def _predict(ctx, f):
         if apps and len(ml) == 1 and None not in ml.values():
             lp = list(ml.values())[0]
             per = []
+            from ..paths import var_leaves as _vl
             for a in apps:
                 at = T.of(a.args[0]) if len(a.args) == 1 else ("unknown", "")
-                per.append(sum(1 for x in walk_term(at)
-                               if isinstance(x, tuple) and x
-                               and x[0] == "mcall" and _is_pop0(x, fs_name)))
+                # a temporary that holds the block (calibrated or not) is
+                # the block: every alternative is counted on its own
+                alts_ = _vl(du, T, at) if at[0] in ("var", "phi") else [at]
+                for alt in alts_ or [at]:
+                    per.append(sum(
+                        1 for x in walk_term(alt)
+                        if isinstance(x, tuple) and x
+                        and x[0] == "mcall" and _is_pop0(x, fs_name)))
             ok_m = (isinstance(lp, ast.For)
                     and T.of(lp.iter) == ("param", p_models)
                     and all(k == 1 for k in per) and pops
@@ -749,11 +838,34 @@ def _var_inits(du, T, var):
     """Terms of the definitions a ('var', name, uids) stands for, in-place
     mutations of the same object peeled off."""
     out = []
-    for d in du.defs:
-        if d.name == var[1] and d.uid in var[2]:
-            if d.kind in ("mut", "store", "augstore", "delitem"):
-                continue
-            out.append(T.of_def(d))
+    seen = set()
+
+    def rec(v):
+        for d in du.defs:
+            if d.name == v[1] and d.uid in v[2] and d.uid not in seen:
+                seen.add(d.uid)
+                if d.kind in ("mut", "store", "augstore", "delitem"):
+                    # the object the mutation was applied to
+                    base = T.of_def(d)
+                    base = base[1] if len(base) > 1 and isinstance(
+                        base[1], tuple) else None
+                    if base is not None and base[0] == "var" and \
+                            base[1] == v[1]:
+                        rec(base)
+                    elif base is not None and base[0] == "phi":
+                        for b_ in base[1]:
+                            if b_[0] == "var" and b_[1] == v[1]:
+                                rec(b_)
+                            elif b_[0] not in ("rec",) and b_ not in out:
+                                out.append(b_)
+                    elif base is not None and base[0] not in (
+                            "var", "rec") and base not in out:
+                        out.append(base)
+                    continue
+                t_ = T.of_def(d)
+                if t_ not in out:
+                    out.append(t_)
+    rec(var)
     return out
 
 
